@@ -387,8 +387,8 @@ def spec_judge(g, obs, prop):
                 if [g_[1] for g_ in sorted(got, key=lambda t: t[1])] != [w_[1] for w_ in sorted(want, key=lambda t: t[1])] or \
                         any(abs(dict((i2, d2) for d2, i2 in got)[i2] - d2) > 1e-9 * max(1.0, abs(d2)) for d2, i2 in want if d2 == d2):
                     yield i, 'exact search over %s: distances %s do not match the vectors of the last accepted writes %s' % (st['name'], str(got)[:100], str(want)[:100]), 'rest:C17:vectors'
-        if st.get('embed') and not st['malformed'] and not st['unknown']:
-            continue            # needs the embedding service: any complete answer is acceptable here
+        if st.get('embed') and ((not st['malformed'] and not st['unknown']) or (isinstance(status, int) and status >= 500)):
+            continue            # needs the (absent) embedding service: a 5xx is acceptable whatever else is wrong with the request
         allowed = set()
         if st['malformed']:
             allowed.add(400)
